@@ -22,15 +22,18 @@ GROUPS = {
     "C04": [("cmp_struct", ["eq.structural", "lt.order"])],
     "C05": [("e2e_filter", ["e2e_filter.members", "e2e_filter.order"]), ("text_filter", ["text_filter.members", "text_filter.order"])],
     "C08": [("e2e", ["e2e.no_panic", "e2e.ok"]), ("arith", ["process_index.no_panic", "process_slice.no_panic"]), ("regex", ["regex.no_panic"]),
-            ("descendant", ["process_descendant.no_panic"]), ("name_lookup", ["process_key.no_panic"])],
+            ("descendant", ["process_descendant.no_panic"]), ("name_lookup", ["process_key.no_panic"]), ("text_arith", ["text_arith.no_panic"])],
     "C10": [("regex", ["regex.match", "regex.search", "regex.no_panic"]), ("e2e_fn", ["e2e_fn.members", "e2e_fn.no_panic"])],
     "C11": [("arith", ["process_index.select", "process_slice.select", "process_index.no_panic", "process_slice.no_panic"]),
-            ("text_arith", ["text_arith.members", "text_arith.order"])],
+            ("text_arith", ["text_arith.members", "text_arith.order", "text_arith.no_panic"])],
     "C15": [("e2e", ["e2e.view_independent"]), ("cmp_struct", ["eq.structural", "lt.order"])],
 }
 # Verus unit -> bounded groups that can produce a failing input for it
 CEX_GROUPS = {
-    "process_index": ["arith"], "process_slice": ["arith"],
+    "process_index": ["arith"], "process_slice": ["arith"], "validate_range": ["text_arith"],
+    "eq": ["cmp_struct"], "lt": ["cmp_struct"], "count": ["e2e_fn"], "value": ["e2e_fn"], "length": ["e2e_fn"], "TestFunction::apply": ["e2e_fn"],
+    "Filter::select_children": ["e2e_filter"], "Filter::process_elem": ["e2e_filter"], "FilterAtom::process": ["e2e_filter"], "Filter::filter_item": ["e2e_filter"],
+    "Filter::process": ["e2e_filter"], "Filter::process_selector": ["e2e_filter"], "invert_bool": ["e2e_filter"], "Test::process": ["e2e_filter"],
 }
 TARGET = os.path.join(VERIF, "native", "target")
 
@@ -87,6 +90,19 @@ def run_groups(run, groups: list[str], only=None) -> list[dict] | None:
             p = subprocess.run(cmd, capture_output=True, text=True, timeout=7200)
         except subprocess.TimeoutExpired:
             run.undecided.append(f"native groups {todo}: timeout")
+            return None
+        if p.returncode == 3 and '"hang"' in p.stdout:
+            # the real code did not return within 20 s on one input: a termination violation, with the input
+            h = json.loads(p.stdout.strip().splitlines()[-1])["hang"]
+            os.makedirs(os.path.join(VERIF, "replays"), exist_ok=True)
+            path = os.path.join(VERIF, "replays", f"{run.prop}_{h['group']}_terminates.json")
+            with open(path, "w") as fh:
+                json.dump({"property": run.prop, "unit": h["group"], "backend": "native-bounded", "group": h["group"], "tier": run.tier, "seed": run.seed,
+                           "failed_obligations": [h["group"] + ".terminates"], "counterexample": h}, fh, indent=1)
+            if run.prop in ("C08", "C11"):
+                run.violations.append({"unit": h["group"], "obligations": [h["group"] + ".terminates"], "features": [], "replay": path, "cex": h})
+            else:
+                run.undecided.append(f"native group {h['group']}: the real code hangs on {h['evaluation'][:200]} (reported under C08/C11)")
             return None
         if p.returncode != 0:
             run.undecided.append(f"native groups {todo}: runner failed: " + p.stderr[-400:])
